@@ -897,6 +897,351 @@ def run_C12(ctx):
         ctx.oracle("xml_expected_doc", tr)
 
 
+# ------------------------------------------------------------------------------------------ C13
+def run_C13(ctx):
+    rng = ctx.rng
+    versions = [0, 1, 4, 9] if ctx.quick else [0, 1, 2, 4, 6, 9, 14, 19, 24, 29, 39]
+    mats = symbol_matrices(ctx, versions)
+    cases = []
+    colours = [("000000ff", "ffffffff"), ("102030ff", "f0e0d0ff"), ("000000ff", "ffffff00"), ("ff0000ff", "00ff00ff"), ("0000ffff", "ffffff80")]
+    for v, (n, hx) in sorted(mats.items()):
+        for sh in range(6):
+            margin = rng.choice([0, 1, 2, 4])
+            fg, bg = rng.choice(colours)
+            side = n + 2 * margin
+            # original scale (1 px per module): exact for squares
+            if sh == 0:
+                cases.append("raster %d %s shape=0 margin=%d fg=%s bg=%s" % (n, hx, margin, fg, bg))
+            # >= 4 px per module: centre sampling; integer scales for squares
+            k = rng.choice([4, 5, 8]) if (ctx.quick or v > 10) else rng.choice([4, 5, 6, 8, 10])
+            cases.append("raster %d %s shape=%d margin=%d fg=%s bg=%s fitw=%d" % (n, hx, sh, margin, fg, bg, side * k))
+            if not ctx.quick or sh % 2 == 0:
+                cases.append("raster %d %s shape=%d margin=%d fg=%s bg=%s fith=%d" % (n, hx, sh, margin, fg, bg, side * 4 + rng.randrange(0, side)))
+            if not ctx.quick or sh == 1:
+                cases.append("raster %d %s shape=%d margin=%d fitw=%d fith=%d" % (n, hx, sh, margin, side * 6, side * 4))
+    if ctx.quick:
+        cases = cases[:70]
+    impl, _ = ctx.correspond("raster", cases)
+    no_panic(ctx, "raster", cases, impl)
+    ctx.count_oracle("pixel_classes", len(cases))
+    for c, o in zip(cases, impl):
+        q = o.split()
+        if len(q) == 6 and q[0] == "OK":
+            if q[1] != q[2]:
+                ctx.direct_failure("square_pixmap", {"case": c[:300]}, "pixmap is %sx%s" % (q[1], q[2]))
+            if q[3] != "0" or q[4] != "0":
+                ctx.direct_failure("pixel_classes", {"case": c[:300]}, "centre mismatches %s, full-cell mismatches %s" % (q[3], q[4]))
+            if q[5] != "1":
+                ctx.direct_failure("png_roundtrip", {"case": c[:300]}, "PNG bytes do not decode to the pixmap")
+
+
+# ------------------------------------------------------------------------------------------ C14
+def run_C14(ctx):
+    rng = ctx.rng
+    cases = []
+    for i in range(60 if ctx.quick else 1500):
+        m = rng.randrange(3)
+        data = payload(rng, m, rng.randrange(0, 60), "ascii" if m == 2 else "random")
+        ops = []
+        for _ in range(rng.randrange(1, 9)):
+            r = rng.random()
+            if r < 0.3:
+                ops.append("build")
+            elif r < 0.45:
+                ops.append("mode=%d" % rng.choice([m, 2, 2, rng.randrange(3)]) if m != 2 else "mode=2")
+            elif r < 0.65:
+                ops.append("ecl=%d" % rng.randrange(4))
+            elif r < 0.85:
+                ops.append("version=%d" % rng.choice([0, 1, 2, 5, 9, 20, 39]))
+            else:
+                ops.append("mask=%d" % rng.randrange(8))
+        ops.append("build")
+        # forced modes must accept the payload (otherwise the documented precondition is violated)
+        ok = True
+        for op in ops:
+            if op.startswith("mode="):
+                fm = int(op[5:])
+                if fm == 0 and not all(c in DIGITS for c in data):
+                    ok = False
+                if fm == 1 and not all(c in ALNUM for c in data):
+                    ok = False
+        if ok:
+            cases.append("hist %s %s" % (hexs(data), " ".join(ops)))
+    impl, _ = ctx.correspond("builder_histories", cases)
+    no_panic(ctx, "hist", cases, impl)
+    ctx.count_oracle("shared_vs_fresh_builder", len(cases))
+    for c, o in zip(cases, impl):
+        if o.startswith("OK") and any(tok.startswith("0:") for tok in o.split()[1:]):
+            ctx.direct_failure("shared_vs_fresh_builder", {"case": c[:300]}, "a build on a reused builder differs from a fresh builder with the same final options: " + o[:80])
+    th = ["threads %d %d %d" % (nt, 3 if ctx.quick else 12, ctx.seed * 31 + nt) for nt in ([1, 2, 4, 8, 16] if ctx.quick else range(1, 17))]
+    impl, _ = ctx.correspond("threads", th)
+    ctx.count_oracle("threads_equal_sequential", len(th))
+    for c, o in zip(th, impl):
+        q = o.split()
+        if len(q) != 3 or q[2] != "0":
+            ctx.direct_failure("threads_equal_sequential", {"case": c}, o[:60])
+    # rendering does not modify the QR code and is repeatable: last field of the svg stream
+    sc = gen_svg_cases(ctx, 20 if ctx.quick else 300, [0, 3, 10], with_image=False)
+    si, _ = ctx.correspond("svg", sc)
+    ctx.count_oracle("render_pure", len(sc))
+    for c, o in zip(sc, si):
+        if o.startswith("OK ") and not o.endswith(" 1"):
+            ctx.direct_failure("render_pure", {"case": c[:300]}, "second to_str differs or matrix modified")
+    if ctx.purity:
+        ctx.direct_failure("purity_scan", {"case": "lexical scan of /repo/src"}, "hidden-state candidates: %s" % ctx.purity[:5])
+
+
+# ------------------------------------------------------------------------------------------ C17
+HEXD = "0123456789abcdefABCDEF"
+
+
+def rand_colour_string(rng):
+    r = rng.random()
+    if r < 0.35:
+        n = rng.choice([6, 8])
+        return ("#" if rng.random() < 0.6 else "") + "".join(rng.choice(HEXD) for _ in range(n))
+    if r < 0.5:
+        return ("#" if rng.random() < 0.5 else "") + "".join(rng.choice(HEXD) for _ in range(rng.randrange(0, 11)))
+    if r < 0.7:
+        return rng.choice(["", "#", "zz", "\u00e9", "\u20aca", "#12345", "+1+2+3", "-1-2-3", "#ggggggff", "red", "##aabbcc", "#aabbcc#", "aabbccdde",
+                           "\U0001F680\U0001F680", "ab\u00e9cd", "+f+f+f+f", "0x0x0x", " aabbcc", "#AABBCCDD", "\u00e9\u00e9\u00e9"])
+    return "".join(rng.choice("0123456789abcdef#+-gG \u00e9z") for _ in range(rng.randrange(0, 10)))
+
+
+def run_C17(ctx):
+    rng = ctx.rng
+    cases = []
+    contents = ["x", "HELLO WORLD", "12345", "https://example.com/", "", "\u00e9\u20ac", "a" * 200, "A" * 5000]
+    for c in contents:
+        cases.append("wasmqr " + hexs(c))
+    for i in range(200 if ctx.quick else 5000):
+        content = rng.choice(contents[:7]) if rng.random() < 0.9 else "9" * rng.randrange(7000, 7200)
+        ops = []
+        for _ in range(rng.randrange(0, 8)):
+            k = rng.randrange(11)
+            if k == 0:
+                ops.append("shape=%d" % rng.randrange(6))
+            elif k == 1:
+                ops.append("modcol=" + hexs(rand_colour_string(rng)))
+            elif k == 2:
+                ops.append("margin=%d" % rng.choice([0, 1, 4, 10]))
+            elif k == 3:
+                ops.append("bg=" + hexs(rand_colour_string(rng)))
+            elif k == 4:
+                ops.append("image=" + hexs(rng.choice(IMAGE_STRINGS)))
+            elif k == 5:
+                ops.append("ibg=" + hexs(rand_colour_string(rng)))
+            elif k == 6:
+                ops.append("ishape=%d" % rng.randrange(3))
+            elif k == 7:
+                ops.append("isize=%s,%s" % (rng.choice(["5", "7.5", "3"]), rng.choice(["0", "1", "0.5"])))
+            elif k == 8:
+                ln = rng.choice([0, 1, 2, 2, 2, 3, 4])
+                ops.append("ipos=" + (",".join(rng.choice(["10", "12.5", "8.25"]) for _ in range(ln)) if ln else "-"))
+            elif k == 9:
+                ops.append("ecl=%d" % rng.randrange(4))
+            else:
+                ops.append("version=%d" % rng.choice([0, 1, 5, 12, 39]))
+        cases.append("wasm %s %s" % (hexs(content), " ".join(ops)))
+    # every single-setter history with malformed values
+    for col in ["", "#", "zz", "\u00e9", "\u20aca", "#12345", "+1+2+3", "#gg0000", "#aabbcc", "#aabbccdd", "aabbccdde", "\U0001F680"]:
+        for key in ["modcol", "bg", "ibg"]:
+            cases.append("wasm 78 %s=%s" % (key, hexs(col)))
+            cases.append("wasm 78 image=%s %s=%s" % (hexs("i.png"), key, hexs(col)))
+    for pos in ["-", "1", "1,2", "1,2,3", "1,2,3,4"]:
+        cases.append("wasm 78 ipos=%s" % pos)
+        cases.append("wasm 78 image=%s ipos=%s" % (hexs("i.png"), pos))
+        cases.append("wasm 78 image=%s isize=5,1 ipos=%s" % (hexs("i.png"), pos))
+    cases.append("wasm 78 isize=5,1")
+    cases.append("wasm 78 image=%s isize=5,1" % hexs("i.png"))
+    impl, _ = ctx.correspond("wasm", cases)
+    no_panic(ctx, "wasm", cases, impl)
+    # oracle 1: qr() = row-major 0/1 values of a native build with default options (or empty)
+    nat = []
+    for c in contents:
+        nat.append(build_case(None, None, None, None, c.encode("utf-8")))
+    nout = ctx.run_impl("native", nat)
+    ctx.count_oracle("wasm_qr_equals_native", len(nat))
+    for c, wq, nb in zip(contents, impl[:len(contents)], nout):
+        b = parse_build_out(nb)
+        want = "OK " + ("-" if b is None else "".join("%02x" % (int(b["hex"][2 * i:2 * i + 2], 16) & 1) for i in range(b["n"] * b["n"])))
+        if wq != want:
+            ctx.direct_failure("wasm_qr_equals_native", {"case": "wasmqr " + hexs(c)}, "qr() differs from the native build's module values")
+    # oracle 2: qr_svg = native SvgBuilder output for well-formed settings (re-expressed through the svg stream)
+    tr = []
+    for c, o in zip(cases, impl):
+        p = c.split()
+        if p[0] != "wasm":
+            continue
+        well = True
+        opts = {"shape": "0", "margin": "4"}
+        order = []
+        for op in p[2:]:
+            k, v = op.split("=", 1)
+            if k in ("modcol", "bg", "ibg"):
+                s_ = bytes.fromhex(v).decode("utf-8") if v != "-" else ""
+                body = s_[1:] if s_.startswith("#") else s_
+                if len(body) in (6, 8) and all(ch in HEXD for ch in body):
+                    opts[k] = (body + ("ff" if len(body) == 6 else "")).lower()
+                else:
+                    well = False      # malformed colour: only no-panic is required
+            elif k == "ipos":
+                if v == "-" or len(v.split(",")) != 2:
+                    well = False
+                else:
+                    opts[k] = v
+            else:
+                opts[k] = v
+        if not well:
+            continue
+        ver = int(opts["version"]) if "version" in opts else None
+        ecl = int(opts["ecl"]) if "ecl" in opts else None
+        tr.append((c, o, opts, ver, ecl))
+    bcases = [build_case(None, t[4], t[3], None, bytes.fromhex(t[0].split()[1]) if t[0].split()[1] != "-" else b"") for t in tr]
+    bouts = ctx.run_impl("native_build", bcases)
+    scases = []
+    keep = []
+    for t, bo in zip(tr, bouts):
+        b = parse_build_out(bo)
+        c, o, opts, ver, ecl = t
+        if b is None:
+            ctx.count_oracle("wasm_svg_equals_native", 1)
+            if o != "OK -":
+                ctx.direct_failure("wasm_svg_equals_native", {"case": c[:300]}, "content cannot be encoded but qr_svg did not return the empty string")
+            continue
+        so = ["shape=" + opts["shape"], "margin=" + opts["margin"]]
+        if "bg" in opts:
+            so.append("bg=" + opts["bg"])
+        if "modcol" in opts:
+            so.append("fg=" + opts["modcol"])
+        if "image" in opts and opts["image"] != "-":
+            so.append("image=" + opts["image"])
+        if "ibg" in opts:
+            so.append("ibg=" + opts["ibg"])
+        if "ishape" in opts:
+            so.append("ishape=" + opts["ishape"])
+        if "isize" in opts:
+            a_, g_ = opts["isize"].split(",")
+            so += ["isize=" + a_, "igap=" + g_]
+        if "ipos" in opts:
+            so.append("ipos=" + opts["ipos"])
+        scases.append("svg %d %s %s" % (b["n"], b["hex"], " ".join(so)))
+        keep.append((c, o))
+    souts = ctx.run_impl("native_svg", scases)
+    ctx.count_oracle("wasm_svg_equals_native", len(scases))
+    for (c, o), so in zip(keep, souts):
+        q = so.split()
+        if len(q) == 3 and q[0] == "OK":
+            if o != "OK " + q[1]:
+                ctx.direct_failure("wasm_svg_equals_native", {"case": c[:400]}, "qr_svg output differs from the native SvgBuilder output for the same settings")
+        else:
+            ctx.direct_failure("wasm_svg_equals_native", {"case": c[:400]}, "native builder: " + so[:40])
+
+
+# ------------------------------------------------------------------------------------------ C18
+def run_C18(ctx):
+    import re as _re
+    rng = ctx.rng
+    versions = list(range(40)) if not ctx.quick else [0, 1, 2, 6, 9, 20, 26, 39]
+    mats = symbol_matrices(ctx, versions)
+    cases = []
+    meta = []
+    for v, (n, hx) in sorted(mats.items()):
+        for ish in range(3):
+            for margin in (range(0, 17) if not ctx.quick else [0, 3, 4, 16]):
+                cases.append("svg %d %s margin=%d image=%s ishape=%d" % (n, hx, margin, hexs("i.png"), ish))
+                meta.append((v, n, margin, None, None, None))
+    for _ in range(30 if ctx.quick else 600):
+        v = rng.choice(sorted(mats))
+        n, hx = mats[v]
+        margin = rng.choice([0, 2, 4])
+        size = rng.choice([None, 3.0, 5.0, 7.5, 9.25])
+        gap = rng.choice([None, 0.0, 1.0, 0.5, 1.75])
+        pos = rng.choice([None, (10.0, 10.0), (12.5, 11.5)])
+        o = "svg %d %s margin=%d image=%s ishape=%d" % (n, hx, margin, hexs("i.png"), rng.randrange(3))
+        if size is not None:
+            o += " isize=%s" % size
+        if gap is not None:
+            o += " igap=%s" % gap
+        if pos is not None:
+            o += " ipos=%s,%s" % pos
+        cases.append(o)
+        meta.append((v, n, margin, size, gap, pos))
+    impl, _ = ctx.correspond("svg_image", cases)
+    no_panic(ctx, "svg_image", cases, impl)
+    ctx.count_oracle("frame_geometry", len(cases))
+    prev_side = {}
+    for c, o, (v, n, margin, size, gap, pos) in zip(cases, impl, meta):
+        q = o.split()
+        if len(q) != 3 or q[0] != "OK":
+            ctx.direct_failure("frame_geometry", {"case": c[:200]}, o[:40])
+            continue
+        text = bytes.fromhex(q[1]).decode("utf-8")
+        rects = _re.findall(r'<rect x="([-0-9.]+)" y="([-0-9.]+)" width="([-0-9.]+)" height="([-0-9.]+)"', text)
+        imgs = _re.findall(r'<image x="([-0-9.]+)" y="([-0-9.]+)" width="([-0-9.]+)" height="([-0-9.]+)"', text)
+        if len(rects) != 1 or len(imgs) != 1:
+            ctx.direct_failure("frame_geometry", {"case": c[:200]}, "expected one frame rect and one image element")
+            continue
+        fx, fy, fw, fh = map(float, rects[0])
+        ix, iy, iw, ih = map(float, imgs[0])
+        S = n + 2 * margin
+        bad = []
+        tol = 0.006
+        if abs(fw - fh) > 1e-9 or abs(iw - ih) > 1e-9:
+            bad.append("not square")
+        if abs((ix + iw / 2) - (fx + fw / 2)) > tol or abs((iy + ih / 2) - (fy + fh / 2)) > tol:
+            bad.append("image not centred in frame")
+        if size is None and gap is None and pos is None:
+            if fx != int(fx) or fw != int(fw):
+                bad.append("frame not module aligned")
+            if abs((fx + fw / 2) - S / 2) > 1e-9 or abs((fy + fh / 2) - S / 2) > 1e-9:
+                bad.append("frame not centred on the symbol")
+            if not (5 * fw < 2 * n):
+                bad.append("frame >= 40% of the symbol")
+            if not (fx >= margin + 8 and fx + fw <= margin + n - 8):
+                bad.append("frame touches finder/separator area")
+            if iw > fw + 1e-9:
+                bad.append("image larger than frame")
+            key = (margin, c.split("ishape=")[1][:1])
+            if key in prev_side and prev_side[key][0] < v and prev_side[key][1] > fw:
+                bad.append("frame side shrinks as the version grows")
+            prev_side[key] = (v, fw)
+        else:
+            if size is not None and abs(iw - size) > tol:
+                bad.append("image size not honoured")
+            if gap is not None:
+                want = iw + 2 * gap
+                if not (abs(fw - want) < tol or abs(fw - (want - 1)) < tol):
+                    bad.append("gap not honoured: frame %s image %s gap %s" % (fw, iw, gap))
+            if pos is not None:
+                if abs((fx + fw / 2) - pos[0]) > tol or abs((fy + fh / 2) - pos[1]) > tol:
+                    bad.append("frame not centred on the requested position")
+            elif abs((fx + fw / 2) - S / 2) > 0.5 + tol:
+                bad.append("frame not centred on the symbol")
+        if bad:
+            ctx.direct_failure("frame_geometry", {"case": c[:300]}, "; ".join(bad))
+
+
+# ------------------------------------------------------------------------------------------ C19
+def run_C19(ctx):
+    wd = os.path.join(WORK, "files")
+    os.makedirs(wd, exist_ok=True)
+    classes = ["ok", "missingdir", "isdir", "devfull", "procfs", "longname", "nul"]
+    cases = ["file %s %s %s" % (k, cl, wd) for k in ("svg", "png") for cl in classes]
+    if not ctx.quick:
+        cases = cases * 5
+    impl, _ = ctx.correspond("file", cases)
+    no_panic(ctx, "file", cases, impl)
+    ctx.count_oracle("all_or_error", len(cases))
+    for c, o in zip(cases, impl):
+        cl = c.split()[2]
+        if cl == "ok":
+            if o != "RET_OK same=1":
+                ctx.direct_failure("all_or_error", {"case": c}, "write to a writable path: " + o)
+        else:
+            if o.startswith("RET_OK"):
+                ctx.direct_failure("all_or_error", {"case": c}, "returned Ok although the file cannot hold the rendering: " + o)
+
 REGISTRY = {
     "C01": {"run": run_C01, "corpus": corpus_builds(["decode"]), "tables": ["all"],
             "rule": "builds over (mode, level, version) cells at capacity / lower threshold / random lengths, forced and automatic options; non-trivial = distinct case line"},
@@ -922,6 +1267,16 @@ REGISTRY = {
             "rule": "selection traces through the hook recorder; documented penalty of every candidate; raw line / matrix scanners"},
     "C12": {"run": run_C12, "tables": [],
             "rule": "SvgBuilder::to_str on real symbols: margins, 0..3 shape layers over the 6 shapes with and without colours, alpha, images incl. XML-special and non-ASCII strings, background shapes, overrides (multiples of 0.25)"},
+    "C13": {"run": run_C13, "tables": [],
+            "rule": "to_pixmap on real symbols: 6 shapes x margins x colour pairs (incl. transparent background) at 1 px/module (squares, every pixel) and >= 4 px/module (centre sampling) through fit width / height / both; PNG decoded with the png crate"},
+    "C14": {"run": run_C14, "tables": [],
+            "rule": "random setter/build histories on one builder compared with the model and with a fresh builder; 1..16 threads building different inputs vs the sequential results; render twice"},
+    "C17": {"run": run_C17, "tables": [],
+            "rule": "wasm option histories: every setter with well-formed and malformed values (colour strings of any content/length incl. non-ASCII, position arrays of length 0..4, size without position and vice versa), random histories; qr() on several contents"},
+    "C18": {"run": run_C18, "tables": [],
+            "rule": "default image frames for versions x 3 background shapes x margins 0..16 (quick: a spread) + sampled overrides; geometry read back from the attributes of the implementation's SVG"},
+    "C19": {"run": run_C19, "tables": [],
+            "rule": "to_file of SVG and PNG under 7 path classes: writable, missing directory, path is a directory, /dev/full (write-time ENOSPC), /proc (create-time), over-long name, NUL in path"},
     "C15": {"run": run_C15, "corpus": corpus_builds(["labels"]), "tables": ["alignment", "version_size"],
             "rule": "all 40 blank symbols + builds; every label compared with the ISO region map"},
     "C16": {"run": run_C16, "tables": [],
